@@ -1,3 +1,5 @@
 //! Targets of redirections that have no loom counterpart.
 /// `std::sync::atomic::compiler_fence`: loom has none; it orders nothing between threads.
 pub use std::sync::atomic::compiler_fence;
+
+pub use std::sync::{LockResult, PoisonError, TryLockError, TryLockResult};
